@@ -70,6 +70,28 @@ PRIORS_V1 = {
 }
 
 
+class _FailAt:
+    def __init__(self, inner):
+        self.inner, self.k, self.kind = inner, None, "silent"
+
+    def arm(self, k, kind):
+        self.k, self.kind = k, kind
+
+    def disarm(self):
+        self.k = None
+
+    def respond(self, data):
+        if self.k is not None:
+            self.k -= 1
+            if self.k < 0:
+                self.k = None
+                return None if self.kind == "silent" else self.inner.exception(data, 6)
+        return self.inner.respond(data)
+
+    def __getattr__(self, name):
+        return getattr(self.inner, name)
+
+
 def reset_shared_state():
     """The setting definitions are class-level objects that decoding mutates; put every one of them back to its
     import-time state so that a case never depends on the cases executed before it."""
@@ -107,9 +129,25 @@ def run_mode_case(acc: Acc, case):
     variant = case["variant"]
     fam = VARIANTS[variant]["family"]
     inv, sim = build(variant)
+    if case.get("info_history"):
+        # earlier read_device_info() runs on the same object in which request k (0 = identification block, 1 = eco-mode v2 probe,
+        # 2 = peak-shaving probe) got no answer / a 'busy' exception; then a clean run - the state the calls below start from
+        from goodwe.exceptions import InverterError
+        fault = _FailAt(siminv.responder_for(inv, sim))
+        siminv.attach_direct(inv, fault)
+        for k_req, kind in case["info_history"]:
+            fault.arm(k_req, kind)
+            try:
+                run_sync(inv.read_device_info())
+            except InverterError:
+                pass
+            fault.disarm()
+        run_sync(inv.read_device_info())
     groups, nregs, v2 = eco_layout(inv)
     priors = PRIORS_V2 if v2 else PRIORS_V1
     get, set_bytes = sim_space(sim, groups[0])
+    if case["prior"] not in priors:
+        return []
     set_bytes(groups[0], priors[case["prior"]])
     for g in groups[1:]:
         set_bytes(g, priors[case.get("others", "fulltime-charge") if case.get("others", "fulltime-charge") in priors else "fulltime-charge"])
@@ -117,7 +155,7 @@ def run_mode_case(acc: Acc, case):
     p, s = case["power"], case["soc"]
     emulated = mode in (OperationMode.ECO_CHARGE, OperationMode.ECO_DISCHARGE)
     if emulated or case["prior"] not in ("off", "zeros", "type0-off"):
-        acc.nontrivial(variant, int(mode), p, s, case["prior"], case.get("others"), repr(case.get("before")))
+        acc.nontrivial(variant, int(mode), p, s, case["prior"], case.get("others"), repr(case.get("before")), repr(case.get("info_history")))
     modes = run_sync(inv.get_operation_modes(True))
     if mode not in modes:
         return []
@@ -288,6 +326,9 @@ def mode_job(job):
                         for before in ([[int(mode), p, (s + 40) % 101]], [[int(mode), (p % 100) + 1, s]], [[int(mode), p, s], [1, 0, 0]],
                                        [[98 if int(mode) == 99 else 99, p, s]], [[3, 0, 0], [int(mode), p, 100 - s]]):
                             _apply(acc, dict(case, before=before), run_mode_case)
+                    if mode in (OperationMode.ECO_CHARGE, OperationMode.ECO_DISCHARGE) and others == prior and prior in ("off", "type0-on") and variant.startswith("ET"):
+                        for ih in ([[1, "silent"]], [[2, "silent"]], [[1, "busy"]], [[0, "silent"]], [[1, "silent"], [2, "busy"]]):
+                            _apply(acc, dict(case, info_history=ih), run_mode_case)
                     if len(acc.samples) < 1 and mode == OperationMode.ECO_CHARGE and prior == "unset":
                         acc.sample(case)
     return acc
@@ -349,6 +390,7 @@ def hyp_job(job):
         priors = sorted(PRIORS_V2 if v2 else PRIORS_V1)
         return {"variant": variant, "mode": draw(st.sampled_from((0, 1, 2, 3, 4, 5, 98, 99, 98, 99))), "power": draw(st.integers(1, 100)),
                 "soc": draw(st.integers(0, 100)), "prior": draw(st.sampled_from(priors)), "others": draw(st.sampled_from(priors)),
+                "info_history": draw(st.lists(st.tuples(st.integers(0, 2), st.sampled_from(("silent", "busy"))).map(list), max_size=2)) if variant.startswith("ET") else [],
                 "before": draw(st.lists(st.tuples(st.sampled_from((0, 1, 2, 3, 4, 5, 98, 99, 98, 99)), st.sampled_from((1, 37, 50, 100)),
                                                   st.sampled_from((0, 20, 81, 100))).map(list), max_size=2))}
 
